@@ -459,6 +459,29 @@ theorem nonceLoop_ok (cfg : Cfg) (now : Nat) (httl : cfg.nonceTtl ≠ 0) :
           obtain ⟨vp, hvp, heq⟩ := List.mem_map.mp hmem
           exact hdiff vp hvp heq
 
+theorem nonceCheck_ok (cfg : Cfg) (now : Nat) (fault : Bool) (vps : List VP) (st st' : Store Unit) (u : Unit)
+    (h : nonceCheck cfg now fault vps st = (st', .ok u)) : s2sNonceLoop cfg now vps st = (st', .ok ()) := by
+  unfold nonceCheck at h
+  split at h
+  · split at h <;> simp at h
+  · exact h
+
+theorem nonceCheck_fst (cfg : Cfg) (now : Nat) (fault : Bool) (vps : List VP) (st : Store Unit) :
+    (nonceCheck cfg now fault vps st).1 = st ∨ (nonceCheck cfg now fault vps st).1 = (s2sNonceLoop cfg now vps st).1 := by
+  unfold nonceCheck
+  split
+  · left; split <;> rfl
+  · right; rfl
+
+/-- a store fault on the nonce read never yields a success of the nonce check (fail closed) -/
+theorem nonceCheck_fault (cfg : Cfg) (now : Nat) (vps : List VP) (st : Store Unit) (hne : vps ≠ []) :
+    ∀ u, (nonceCheck cfg now true vps st).2 ≠ .ok u := by
+  intro u
+  unfold nonceCheck
+  cases vps with
+  | nil => exact absurd rfl hne
+  | cons vp rest => simp only; split <;> simp
+
 /-! ### remaining steps of the s2s chain -/
 
 theorem verifyAll_ok (cfg : Cfg) (now : Nat) : ∀ vps, verifyAll cfg now vps = .ok () → ∀ vp ∈ vps, vpVerifies cfg now vp = true := by
@@ -611,7 +634,8 @@ theorem issueS2S_ok (cfg : Cfg) (w w' : World) (now : Nat) (r : S2SReq) (resp : 
                     · rename_i hver
                       obtain ⟨d, hd, _, hpex, hcons⟩ := fulfill_ok _ _ _ _ _ _ hful
                       obtain ⟨claims, hclaims, htok, hscope, _, _, _, hw'⟩ := createAccessToken_ok _ _ _ _ _ _ _ _ _ _ h
-                      have hloop' := nonceLoop_ok cfg now httl r.vps w.s2sNonces nonces hloop
+                      have hloop' := nonceLoop_ok cfg now httl r.vps w.s2sNonces nonces
+                        (nonceCheck_ok cfg now r.nonceFault r.vps w.s2sNonces nonces _ hloop)
                       have hp := s2sPre_ok cfg r.subject hchk r.vps "" s hwf hpre
                       refine ⟨s, d, ?_, ?_⟩
                       · exact { subject := by simpa using hsubj
